@@ -95,8 +95,21 @@ func genC12(tier, out string, sum *Summary) {
 		for i := range rs {
 			rs[i] = mixedRunes[(i*3+n)%len(mixedRunes)]
 		}
-		targets := []any{arr, string(rs)}
-		for ti, target := range targets {
+		ascii := "hello!"[:n]
+		withNulls := make([]any, n)
+		for i := range withNulls {
+			if i%2 == 0 {
+				withNulls[i] = nil
+			} else {
+				withNulls[i] = json.Number(strconv.Itoa(i))
+			}
+		}
+		targets := []any{arr, string(rs), ascii, withNulls}
+		if n == 0 {
+			// a slice of anything else is null, never an error
+			targets = append(targets, map[string]any{"a": json.Number("1")}, json.Number("5"), true, nil, map[string]any{})
+		}
+		for _, target := range targets {
 			for _, start := range boundPool(int64(n)) {
 				for _, stop := range boundPool(int64(n)) {
 					for _, step := range stepPool(int64(n)) {
@@ -118,8 +131,10 @@ func genC12(tier, out string, sum *Summary) {
 						}
 						o := search(expr, doc)
 						kind := "array"
-						if ti == 1 {
+						if _, ok := target.(string); ok {
 							kind = "string"
+						} else if _, ok := target.([]any); !ok {
+							kind = "other"
 						}
 						sum.count(kind + "/" + o.Kind)
 						if step != nil && *step < 0 {
